@@ -3,12 +3,14 @@
 #include "node_common.h"
 
 enum { M_INVALID = 0, M_INIT, M_PREOP, M_OP, M_STOP };
-static struct { uint8_t mode, lss_conf, emcy0, stopped; uint8_t p8; } M;
+static struct { uint8_t mode, lss_conf, emcy0, stopped; uint8_t p8; uint8_t nid /* live node id */, stored /* node id stored through LSS, 0 none */; } M;
+#define LID M.nid      /* NMT addressing, SDO server (node-id relative 1200h), boot-up/heartbeat and LSS inquiry follow the live node id; the PDO and
+                          EMCY identifiers of this dictionary are absolute values and stay where they are */
 
 static const uint8_t CS[] = { 1, 2, 128, 129, 130, 0, 3, 127, 255 };
 #define NT 5           /* NMT targets: own id, 0 (all), another id, 80h | own id, 80h - a node id is the whole byte, not its low seven bits */
 enum { E_NMT0 = 0, E_SETMODE0 = 9 * NT, E_START = 9 * NT + 3, E_RESET_NODE, E_RESET_COM, E_STOPNODE, E_P_SDO, E_P_RPDO, E_P_SYNC, E_P_HBMON, E_P_HBFOREIGN,
-       E_P_LSS_CONF, E_P_LSS_WAIT, E_P_LSS_INQ, E_P_FOREIGN, E_P_OWN_SDO, E_P_OWN_HB, E_P_OWN_PDO, E_P_EXT_NMT, E_P_EXT_SDO, E_P_EXT_RPDO, E_P_LSS_SIBLING, E_P_LSS_OWN, E_EMCY_SET, E_EMCY_CLR, E_TRIG, E_TICK, E_TRIG2, E_N };
+       E_P_LSS_CONF, E_P_LSS_WAIT, E_P_LSS_INQ, E_P_FOREIGN, E_P_OWN_SDO, E_P_OWN_HB, E_P_OWN_PDO, E_P_EXT_NMT, E_P_EXT_SDO, E_P_EXT_RPDO, E_P_LSS_SIBLING, E_P_LSS_OWN, E_LSS_STORE7, E_P_OLD_SDO, E_EMCY_SET, E_EMCY_CLR, E_TRIG, E_TICK, E_TRIG2, E_N };
 static uint8_t NID;
 
 static int TT;   /* cfg 4: timer-driven TPDO instead of the heartbeat services */
@@ -33,7 +35,7 @@ static int build(int cfg)
     nc_build();
     (void)CONodeGetErr(&Node);
     memset(&M, 0, sizeof M);
-    M.mode = NC.no_start ? M_INIT : M_PREOP; M.p8 = P8;
+    M.mode = NC.no_start ? M_INIT : M_PREOP; M.p8 = P8; M.nid = NID;
     W_REG(M);
     return TT ? E_N : E_N - 1;
 }
@@ -43,7 +45,7 @@ static const char *ev_name(int e)
     static char b[64];
     static const char *const N[] = { "CONodeStart", "CONmtReset(node)", "CONmtReset(com)", "CONodeStop", "probe:SDO upload 1000h", "probe:RPDO frame", "probe:SYNC", "probe:heartbeat of monitored node",
         "probe:heartbeat of unmonitored node", "probe:LSS switch global(configuration)", "probe:LSS switch global(waiting)", "probe:LSS inquire node-id", "probe:foreign identifier 123h",
-        "probe:own SDO response id", "probe:own heartbeat id", "probe:own TPDO id", "probe:NMT start on identifier 20000000h", "probe:SDO request on 20000600h+id", "probe:RPDO frame on 20000200h+id", "probe:LSS selective sequence, serial of a sibling device", "probe:LSS selective sequence, own identity", "COEmcySet(0)", "COEmcyClr(0)", "COTPdoTrigPdo(0)", "tick", "COTPdoTrigPdo(2) (timer-driven TPDO)" };
+        "probe:own SDO response id", "probe:own heartbeat id", "probe:own TPDO id", "probe:NMT start on identifier 20000000h", "probe:SDO request on 20000600h+id", "probe:RPDO frame on 20000200h+id", "probe:LSS selective sequence, serial of a sibling device", "probe:LSS selective sequence, own identity", "LSS switch configuration + configure node-id 7 + store", "probe:SDO request on the identifier of the initial node id", "COEmcySet(0)", "COEmcyClr(0)", "COTPdoTrigPdo(0)", "tick", "COTPdoTrigPdo(2) (timer-driven TPDO)" };
     if (e < E_SETMODE0) { int t = e % NT; snprintf(b, sizeof b, "NMT cs=%d target=%s", CS[e / NT], t == 0 ? "own" : t == 1 ? "0(all)" : t == 2 ? "other" : t == 3 ? "80h|own" : "80h"); }
     else if (e < E_START) snprintf(b, sizeof b, "CONmtSetMode(%s)", e == E_SETMODE0 ? "PREOP" : e == E_SETMODE0 + 1 ? "OPERATIONAL" : "STOP");
     else snprintf(b, sizeof b, "%s", N[e - E_START]);
@@ -62,6 +64,7 @@ static void model_reset(int nmt_request)
     if (M.mode == M_INIT) { /* no boot-up from INIT without CONodeStart */ }
     else { model_set_mode(M_INIT); model_set_mode(M_PREOP); X.bootup = 1; }
     M.lss_conf = 0; M.emcy0 = 0;
+    if (M.stored) M.nid = M.stored;                     /* a stored node id is the active one from the next reset on */
     if (nmt_request) X.reset_req = nmt_request;
 }
 /* a frame that no service claims */
@@ -82,9 +85,9 @@ static int step(int e)
     /* ---- apply + expectation ---- */
     if (e < E_SETMODE0) {
         int tk = e % NT;
-        uint8_t cs = CS[e / NT], tgt = tk == 0 ? NID : tk == 1 ? 0 : tk == 2 ? (uint8_t)(NID == 127 ? 1 : NID + 1) : tk == 3 ? (uint8_t)(0x80 | NID) : 0x80;
+        uint8_t cs = CS[e / NT], tgt = tk == 0 ? LID : tk == 1 ? 0 : tk == 2 ? (uint8_t)(LID == 127 ? 1 : LID + 1) : tk == 3 ? (uint8_t)(0x80 | LID) : 0x80;
         if (M.mode == M_INIT) unclaimed();                          /* no NMT service during initialisation */
-        else if (tgt == NID || tgt == 0) {
+        else if (tgt == LID || tgt == 0) {
             if (cs == 1) model_set_mode(M_OP); else if (cs == 2) model_set_mode(M_STOP); else if (cs == 128) model_set_mode(M_PREOP);
             else if (cs == 129) model_reset(CO_RESET_NODE); else if (cs == 130) model_reset(CO_RESET_COM);
         }
@@ -100,7 +103,7 @@ static int step(int e)
     case E_STOPNODE: M.stopped = 1; M.mode = M_INVALID; X.free_cb = 1; CONodeStop(&Node); break;
     case E_P_SDO:
         if (M.mode == M_PREOP || M.mode == M_OP) X.n_sdo = 1; else unclaimed();
-        w_rx8(&Node, 0x600 + NID, 0x40, 0x00, 0x10, 0x00, 0, 0, 0, 0); break;
+        w_rx8(&Node, 0x600 + LID, 0x40, 0x00, 0x10, 0x00, 0, 0, 0, 0); break;
     case E_P_RPDO:
         if (M.mode == M_OP) M.p8 = 0x5A; else unclaimed();
         d[0] = 0x5A; w_rx(&Node, 0x200 + NID, 1, d); break;
@@ -117,12 +120,12 @@ static int step(int e)
     case E_P_LSS_WAIT: M.lss_conf = 0; d[0] = 4; d[1] = 0; w_rx(&Node, 0x7E5, 8, d); break;
     case E_P_LSS_INQ: if (M.lss_conf) X.n_lss = 1; d[0] = 0x5E; w_rx(&Node, 0x7E5, 8, d); break;
     case E_P_FOREIGN: unclaimed(); w_rx(&Node, 0x123, 8, d); break;
-    case E_P_OWN_SDO: unclaimed(); d[0] = 0x60; w_rx(&Node, 0x580 + NID, 8, d); break;
-    case E_P_OWN_HB:  unclaimed(); d[0] = 0x7F; w_rx(&Node, 0x700 + NID, 1, d); break;
+    case E_P_OWN_SDO: unclaimed(); d[0] = 0x60; w_rx(&Node, 0x580 + LID, 8, d); break;
+    case E_P_OWN_HB:  unclaimed(); d[0] = 0x7F; w_rx(&Node, 0x700 + LID, 1, d); break;
     case E_P_OWN_PDO: unclaimed(); d[0] = 1; w_rx(&Node, 0x180 + NID, 1, d); break;
     /* identifiers that equal a served one in their low 11 bits only (a driver flagging extended frames in the upper bits): no service may claim them */
-    case E_P_EXT_NMT: unclaimed(); d[0] = 1; d[1] = NID; w_rx(&Node, 0x20000000u, 2, d); break;
-    case E_P_EXT_SDO: unclaimed(); w_rx8(&Node, 0x20000600u + NID, 0x40, 0x00, 0x10, 0x00, 0, 0, 0, 0); break;
+    case E_P_EXT_NMT: unclaimed(); d[0] = 1; d[1] = LID; w_rx(&Node, 0x20000000u, 2, d); break;
+    case E_P_EXT_SDO: unclaimed(); w_rx8(&Node, 0x20000600u + LID, 0x40, 0x00, 0x10, 0x00, 0, 0, 0, 0); break;
     case E_P_EXT_RPDO: unclaimed(); d[0] = 0x5A; w_rx(&Node, 0x20000200u + NID, 1, d); break;
     /* the four frames of switch-state-selective (identity 1018h = 1,2,3,4): every one of them is an LSS request, consumed by the LSS slave
      * whether it matches or not - none may reach the application, whatever the NMT state */
@@ -135,6 +138,15 @@ static int step(int e)
         }
         if (e == E_P_LSS_OWN) { if (!M.lss_conf) X.n_lss = 1; M.lss_conf = 1; }
         break; }
+    /* the node id is changed through LSS and becomes active at the next reset: every service that is addressed through the node id must move */
+    case E_LSS_STORE7:
+        M.lss_conf = 1; M.stored = 7; X.n_lss = 2;
+        memset(d, 0, 8); d[0] = 4; d[1] = 1; w_rx(&Node, 0x7E5, 8, d);
+        memset(d, 0, 8); d[0] = 0x11; d[1] = 7; w_rx(&Node, 0x7E5, 8, d);
+        memset(d, 0, 8); d[0] = 0x17; w_rx(&Node, 0x7E5, 8, d); break;
+    case E_P_OLD_SDO:
+        if (LID == NID) return MC_SKIP;
+        unclaimed(); w_rx8(&Node, 0x600 + NID, 0x40, 0x00, 0x10, 0x00, 0, 0, 0, 0); break;
     case E_EMCY_SET: if (!M.emcy0) { M.emcy0 = 1; if (M.mode == M_PREOP || M.mode == M_OP) X.n_emcy = 1; } COEmcySet(&Node.Emcy, 0, 0); break;
     case E_EMCY_CLR: if (M.emcy0)  { M.emcy0 = 0; if (M.mode == M_PREOP || M.mode == M_OP) X.n_emcy = 1; } COEmcyClr(&Node.Emcy, 0); break;
     case E_TRIG: if (M.mode == M_OP) X.n_tpdo0 = 1; COTPdoTrigPdo(Node.TPdo, 0); break;
@@ -163,23 +175,24 @@ static int step(int e)
         int hb = 0, boot = 0;
         for (int i = 0; i < OBS.ntx; i++) {
             const WFrame *f = &OBS.tx[i];
-            if (f->id == 0x700u + NID) {
+            if (f->id == 0x700u + LID) {
                 if (e == E_TICK) { hb++; if (f->dlc != 1 || f->d[0] != CODE[M.mode] || M.mode == M_INIT) { mc_fail("nmt-heartbeat-content", "heartbeat frame carries %02X in mode %d", f->d[0], M.mode); return MC_OK; } }
                 else { boot++; if (f->dlc != 1 || f->d[0] != 0) { mc_fail("nmt-bootup-content", "boot-up frame has DLC %d data %02X", f->dlc, f->d[0]); return MC_OK; } }
             }
             else if (f->id == 0x380u + NID) { if (M.mode != M_OP) { mc_fail("gating-pdo", "timer-driven TPDO transmitted in mode %d", M.mode); return MC_OK; } }
-            else if (f->id == 0x580u + NID || f->id == 0x180u + NID || f->id == 0x280u + NID || f->id == 0x80u + NID || f->id == 0x7E4) { }
+            else if (f->id == 0x580u + LID || f->id == 0x180u + NID || f->id == 0x280u + NID || f->id == 0x80u + NID || f->id == 0x7E4) { }
             else { mc_fail("nmt-unexpected-frame", "frame with identifier %03X sent", f->id); return MC_OK; }
         }
         if (boot != X.bootup) { mc_fail("nmt-bootup-count", "%d boot-up frame(s), expected %d", boot, X.bootup); return MC_OK; }
         if (hb > X.hb_max) { mc_fail("nmt-heartbeat-count", "%d heartbeat frames in one tick", hb); return MC_OK; }
-        if (nc_count_tx(0x580u + NID) != X.n_sdo) { mc_fail("gating-sdo", "%d SDO response(s) in mode %d, expected %d", nc_count_tx(0x580u + NID), M.mode, X.n_sdo); return MC_OK; }
+        if (nc_count_tx(0x580u + LID) != X.n_sdo) { mc_fail("gating-sdo", "%d SDO response(s) in mode %d, expected %d", nc_count_tx(0x580u + LID), M.mode, X.n_sdo); return MC_OK; }
         if (nc_count_tx(0x180u + NID) != X.n_tpdo0) { mc_fail("gating-pdo", "%d event TPDO frame(s) in mode %d, expected %d", nc_count_tx(0x180u + NID), M.mode, X.n_tpdo0); return MC_OK; }
         if (nc_count_tx(0x280u + NID) != X.n_tpdo1) { mc_fail("gating-sync", "%d synchronous TPDO frame(s) in mode %d, expected %d", nc_count_tx(0x280u + NID), M.mode, X.n_tpdo1); return MC_OK; }
         if (nc_count_tx(0x80u + NID) != X.n_emcy) { mc_fail("gating-emcy", "%d EMCY frame(s) in mode %d, expected %d", nc_count_tx(0x80u + NID), M.mode, X.n_emcy); return MC_OK; }
         if (nc_count_tx(0x7E4) != X.n_lss) { mc_fail("gating-lss", "%d LSS response(s), expected %d", nc_count_tx(0x7E4), X.n_lss); return MC_OK; }
         if (X.n_lss && (e == E_P_LSS_OWN)) { const WFrame *f = nc_find_tx(0x7E4, 0); if (f->d[0] != 0x44) { mc_fail("gating-lss", "LSS selective switch answered %02X", f->d[0]); return MC_OK; } }
-        else if (X.n_lss) { const WFrame *f = nc_find_tx(0x7E4, 0); if (f->d[0] != 0x5E || f->d[1] != NID) { mc_fail("gating-lss", "LSS inquire node-id answered %02X %02X", f->d[0], f->d[1]); return MC_OK; } }
+        else if (X.n_lss && e == E_LSS_STORE7) { const WFrame *f = nc_find_tx(0x7E4, 0), *g = nc_find_tx(0x7E4, 1); if (f->d[0] != 0x11 || f->d[1] != 0 || !g || g->d[0] != 0x17 || g->d[1] != 0) { mc_fail("gating-lss", "LSS configure node-id / store answered %02X %02X", f->d[0], f->d[1]); return MC_OK; } }
+        else if (X.n_lss) { const WFrame *f = nc_find_tx(0x7E4, 0); if (f->d[0] != 0x5E || f->d[1] != LID) { mc_fail("gating-lss", "LSS inquire node-id answered %02X %02X", f->d[0], f->d[1]); return MC_OK; } }
     }
     {   int n = nc_count_cb(CB_IF_RECEIVE);
         if (n < X.ifrecv_min || n > X.ifrecv_max) { mc_fail("unclaimed-frame-delivery", "frame handed to the application %d time(s) in mode %d, expected %d..%d", n, M.mode, X.ifrecv_min, X.ifrecv_max); return MC_OK; }
